@@ -20,20 +20,27 @@ import common
 
 ID = "C17"
 MANIFEST = dict(
-    technique="Coq proof (freeze fails iff Bad; frozen code is closed; simulation frozen ~ unfrozen over a fuel-indexed "
-              "reference evaluator) + generated-program correspondence model/implementation with the property as oracle",
+    technique="Coq proof (freeze fails iff Bad; frozen code is closed; simulation original ~ frozen over a fuel-indexed reference "
+              "evaluator, also with reassigned outer variables) + generated-program correspondence model/implementation with the property as oracle",
     text="Machine-checked theorems (Coq 8.16, no axioms) about a Gallina transcription of freeze (src/core.rs) and a reference "
-         "evaluator for its vocabulary: freezing fails exactly when an independent inductive predicate over the syntax holds "
-         "(unbound free identifier, assignment to a name the expression has not bound, import, bare underscore), only with a name or "
-         "syntax error; the frozen expression is closed under its own binders; and (see notes/C17.md for the fragment) evaluating the "
-         "frozen and the original expression in related stores gives related values, the same output and the same outcome. Every run "
-         "executes ~800 generated lambdas x 3 argument tuples, frozen and unfrozen, before and after reassigning an outer variable / "
-         "swapping + and * / changing a precedence, on the implementation and on the extracted model.",
+         "evaluator for its vocabulary (sequences, := and =, if, while, for with clauses, switch, try/throw, lambdas and calls, operator "
+         "chains with run-time precedences, lists, unary minus, builtins): freezing fails exactly when an independent inductive predicate "
+         "over the syntax holds (unbound free identifier, assignment to a name the expression has not bound, import, bare underscore), only "
+         "with a name or syntax error; the frozen expression is closed under its own binders; and, for expressions in which no name resolved "
+         "inside a lambda is declared by an enclosing scope (the complement is known finding freeze-late-local-declaration, refuted in Coq), "
+         "evaluating the original expression and evaluating the frozen one - in a store where outer variables it does not keep have been "
+         "reassigned arbitrarily - give related values (equal data, closures with freeze-related bodies), the same output and the same "
+         "outcome, for every fuel, store and argument tuple (simulation, 3.7k lines). Every run executes ~800 generated lambdas x 3 argument "
+         "tuples, frozen and unfrozen, before and after reassigning an outer variable / swapping + and * / changing a precedence, on the "
+         "implementation and on the extracted model, plus a corpus of 23 directed cases.",
     note="Trusted: Coq kernel; hand-written models Lang/FreezeLang.v (evaluator) and Lang/Freeze.v (freeze), tied to /repo only by the "
          "correspondence run (differential testing on generated programs); extraction with ExtrOcamlBasic + ExtrOcamlNativeString "
          "(Coq strings become OCaml strings because ocaml/conv.ml uses OCaml's string type after `open Model`); OCaml runner; Rust "
-         "harness; Python generator and flat scope analysis. Two genuine deviations are known findings (late local declaration: frozen != "
-         "unfrozen; name bound by freeze before it is declared at run time: late binding), one was repaired in /repo (for-clause order).",
+         "harness bin/c17; Python generator and flat scope analysis. The preservation theorem is stated with the run of the original under "
+         "protection of the resolved variables not trapping (= they are not reassigned or shadowed in pre-existing frames); sections, "
+         "break/continue/return, and/or, op-assign are outside the model (correspondence frozen-vs-unfrozen only). Two genuine deviations "
+         "are known findings (late local declaration: frozen != unfrozen; name bound by freeze before it is declared at run time: late "
+         "binding), one was repaired in /repo (for-clause order, de8fc56).",
     design="6-C17")
 
 # ----------------------------------------------------------------------------- AST helpers
@@ -187,8 +194,10 @@ def sx(e):
 def ddecl(e):
     """names an expression may declare directly in the frame it runs in (Coq: ddecl)"""
     k = e[0]
-    if k in ("int", "neg", "str", "null", "var", "und", "while", "for", "lam", "import"):
+    if k in ("int", "neg", "str", "null", "var", "und", "while", "lam", "import"):
         return set()
+    if k == "for":
+        return ddecl(e[2])      # the first iteratee is evaluated in the enclosing frame
     if k == "seq" or k == "list":
         return set().union(*[ddecl(x) for x in e[1]]) if e[1] else set()
     if k == "decl":
@@ -276,9 +285,9 @@ def walk(e, B, DD, info, self_name=None):
         sc = ddecl(e[5])
         for c in e[3]:
             sc |= ddecl(c[-1])
+        B0, DD0 = walk(e[2], B, DD, info)      # in the enclosing environment
         info.scopes.append(sc)
-        B1, DD1 = walk(e[2], B, DD, info)
-        B1, DD1 = B1 | {e[1]}, DD1 | {e[1]}
+        B1, DD1 = B0 | {e[1]}, DD0 | {e[1]}
         for c in e[3]:
             if c[0] == "guard":
                 B1, DD1 = walk(c[1], B1, DD1, info)
@@ -287,7 +296,7 @@ def walk(e, B, DD, info, self_name=None):
                 B1, DD1 = B1 | {c[1]}, DD1 | {c[1]}
         walk(e[5], B1, DD1, info)
         info.scopes.pop()
-        return B, DD
+        return B0, DD0
     if k == "switch":
         B1, DD1 = walk(e[1], B, DD, info)
         for p, b in e[2]:
@@ -400,8 +409,17 @@ class Gen:
         if p < 0.50:
             n = 1 if self.r.random() < 0.55 else (2 if self.r.random() < 0.8 else 3)
             return ("chain", self.gint(scope, d - 1), tuple((self.op(scope), self.gint(scope, d - 2)) for _ in range(n)))
-        if p < 0.58:
+        if p < 0.56:
             return ("chain", self.gint(scope, d - 1), ((("var", self.pick(["<", "=="])), self.gint(scope, d - 1)),))
+        if p < 0.585:
+            # an operator in function position: op(a), op(a, b), op(a, b, c); the first argument is often a constant
+            # for freeze (a literal or an outer variable) - the boundary of the `-literal` folding
+            opn = self.pick(["-", "-", "-", "+", "*", "<", "=="])
+            if scope.get(opn, "op") != "op":
+                opn = "-"
+            n = self.pick([1, 2, 2, 2, 3]) if opn == "-" else self.pick([2, 2, 3])
+            first = self.int_leaf({}) if self.r.random() < 0.7 else self.gint(scope, d - 1)
+            return ("call", ("var", opn), tuple([first] + [self.gint(scope, d - 2) for _ in range(n - 1)]))
         if p < 0.64:
             return ("call", ("var", "len"), (self.glist(scope, d - 1),))
         if p < 0.70:
@@ -503,6 +521,7 @@ class Gen:
             if self.r.random() < 0.6:
                 inner = {n: k for n, k in sc.items() if not n.startswith("#")}
                 inner.update({"p": "int", "#params": ("p",), "#declared": set()})
+                inner[x] = "self"      # the body must not call the function being defined (unbounded recursion)
                 body = self.gint(inner, d - 1)
                 if self.r.random() < 0.25:
                     rec = ("chain", ("var", "p"), ((("var", "+"), ("call", ("var", x), (("chain", ("var", "p"), ((("var", "-"), ("int", 1)),)),))),))
@@ -513,6 +532,7 @@ class Gen:
             else:
                 inner = {n: k for n, k in sc.items() if not n.startswith("#")}
                 inner.update({"p": "int", "q": "int", "#params": ("p", "q"), "#declared": set()})
+                inner[x] = "self"
                 e = ("lam", ("p", "q"), self.gint(inner, d - 1))
                 sc[x] = "op"
             declared.add(x)
@@ -646,7 +666,13 @@ def gen_case(rng, idx):
         lam, kind = add_stmt(lam, ("import", ("str", "nosuchmodule"))), "import"
     elif p < 0.145:
         # sections: an underscore in a section position must freeze
-        new = subst_leaf(rng, lam, lambda: ("call", ("chain", ("und",), ((("var", "+"), ("int", 1)),)), (("int", 2),)))
+        sec = rng.choice([
+            ("call", ("chain", ("und",), ((("var", "+"), ("int", 1)),)), (("int", 2),)),
+            ("call", ("call", ("var", "-"), (("int", 10), ("und",))), (("int", 3),)),
+            ("call", ("call", ("var", "-"), (("var", "a") if "a" in outer else ("int", 7), ("und",))), (("int", 3),)),
+            ("call", ("call", ("var", "*"), (("und",), ("int", 4))), (("int", 3),)),
+        ])
+        new = subst_leaf(rng, lam, lambda: sec)
         if new:
             lam, kind = new, "section"
     elif p < 0.165 and "a" in outer:
